@@ -282,10 +282,18 @@ TRUSTED_COMMON = [
 IDX_FALSE = ('Definition idx_false (l : list bool) : list N := map fst (filter (fun p => negb (snd p)) '
              '(combine (map N.of_nat (seq 0 (List.length l))) l)).\n')
 
+_CASE_LIBS_READY = []
+def ensure_case_libs():
+    """Libraries that only the generated case files import (no Props cone depends on them): build once per process."""
+    if _CASE_LIBS_READY: return
+    ok, out = coq_make(['Lib/Hex.vo'])
+    if ok: _CASE_LIBS_READY.append(1)
+
 def coq_check_cases(name, header, exprs, shard=250, timeout=400):
     """exprs: Coq terms of type bool (model run on the case compared with what the implementation did).
     Evaluated by vm_compute in parallel shards.  -> (failing_indices, error_logs)"""
     from concurrent.futures import ThreadPoolExecutor
+    ensure_case_libs()
     shards = [(i, exprs[i:i + shard]) for i in range(0, len(exprs), shard)]
     def one(sh, tmo=None, depth=0):
         base, es = sh
@@ -317,6 +325,7 @@ def coq_check_cases(name, header, exprs, shard=250, timeout=400):
 def coq_eval_values(name, header, exprs, shard=250, timeout=1200):
     """exprs: Coq terms; returns the printed value (one flat string) per expr, or None on error."""
     from concurrent.futures import ThreadPoolExecutor
+    ensure_case_libs()
     shards = [(i, exprs[i:i + shard]) for i in range(0, len(exprs), shard)]
     def one(sh):
         base, es = sh
